@@ -364,6 +364,24 @@ func formatSafeEmpty(c *Ctx, fam map[*ssa.Function]int, raisers map[*ssa.Functio
 	return safe
 }
 
+// sameLenCopyOf: v is a slice made with the length of the parameter list p (`args := make([]interface{}, len(in))`, filled
+// from it element by element): empty exactly when p is, and formatted with the same format.
+func sameLenCopyOf(v ssa.Value, p *ssa.Parameter) bool {
+	if sl, ok := v.(*ssa.Slice); ok && sl.Low == nil && sl.High == nil {
+		v = sl.X
+	}
+	mk, ok := v.(*ssa.MakeSlice)
+	if !ok {
+		return false
+	}
+	call, ok := mk.Len.(*ssa.Call)
+	if !ok {
+		return false
+	}
+	bi, ok := call.Call.Value.(*ssa.Builtin)
+	return ok && bi.Name() == "len" && len(call.Call.Args) == 1 && call.Call.Args[0] == ssa.Value(p)
+}
+
 // printfFamily maps a function to the index of its format parameter (the variadic list is the last parameter).
 func printfFamily(c *Ctx) map[*ssa.Function]int {
 	fam := map[*ssa.Function]int{}
@@ -403,7 +421,7 @@ func printfFamily(c *Ctx) map[*ssa.Function]int {
 						}
 					}
 					args := call.Common().Args
-					if len(args) == 0 || args[len(args)-1] != ssa.Value(vp) || fi >= len(args) {
+					if len(args) == 0 || (args[len(args)-1] != ssa.Value(vp) && !sameLenCopyOf(args[len(args)-1], vp)) || fi >= len(args) {
 						continue
 					}
 					for pi, p := range fn.Params {
